@@ -86,3 +86,9 @@ Definition trace_header (t : tin) (mailfrom : bytes) (relay_by_ip : bool) : byte
   (if relay_by_ip || t_authed t then []
    else spf_none_field (t_heloname t) (match mailfrom with [] => t_helostr t | m => m end))
   ++ received_field t.
+
+(** the same with the Received-SPF field handed in: write_received() calls spfreceived(queuefd_data, xmitstat.spf), whose literal
+    model for every SPF result is Model/Spf.v:spfreceived (property C11); the correspondence run of the session engine takes
+    [spf] from the extracted C11 model (check_host + spfreceived on the zone of the harness' fake resolver) *)
+Definition trace_header_with (spf : bytes) (t : tin) (relay_by_ip : bool) : bytes :=
+  (if relay_by_ip || t_authed t then [] else spf) ++ received_field t.
